@@ -155,7 +155,9 @@ def _run_one(args):
         env.assert_tree()
         mod = _load(prop)
         rec = Recorder(prop, shard, seed, tier)
-        if shrink_sig is None:
+        if shard.get("kind") == "corpus":
+            _run_corpus(mod, shard, rec)
+        elif shrink_sig is None:
             mod.run_shard(shard, rec)
         else:
             rec._target_sig = shrink_sig
@@ -167,11 +169,40 @@ def _run_one(args):
         return {"shard": shard, "error": traceback.format_exc()}
 
 
+CORPUS = os.path.join(env.VERIF, "corpus")
+
+
+def corpus_shards(prop):
+    """committed regression corpus: the (shrunk) cases of defects that were repaired, replayed
+    first in every tier without Hypothesis; a case whose defect returns fails with its old
+    signature"""
+    d = os.path.join(CORPUS, prop)
+    if not os.path.isdir(d):
+        return []
+    files = sorted(f for f in os.listdir(d) if f.endswith(".json"))
+    return [{"kind": "corpus", "files": files[i:i + 8]} for i in range(0, len(files), 8)]
+
+
+def _run_corpus(mod, shard, rec):
+    for f in shard["files"]:
+        with open(os.path.join(CORPUS, rec.prop, f)) as fp:
+            doc = json.load(fp)
+        case = doc["case"] if isinstance(doc, dict) and "case" in doc else doc
+        try:
+            fails = mod.replay(case)
+        except Exception:          # a case format that the module no longer reads
+            rec.count("corpus_stale")
+            continue
+        rec.count("corpus_replayed")
+        for sig, msg in fails or ():
+            rec.fail(sig, "[regression corpus %s] %s" % (f, msg), case)
+
+
 def run_property(prop, tier, seed, shrink=True):
     t0 = time.time()
     env.assert_tree()
     mod = _load(prop)
-    shards = mod.shards(tier)
+    shards = corpus_shards(prop) + mod.shards(tier)
     scale = float(os.environ.get("VERIF_SCALE", "1"))      # development aid only
     if scale != 1:
         shards = [dict(s, n=max(1, int(s["n"] * scale))) if "n" in s else s for s in shards]
